@@ -2,6 +2,7 @@ SPECIFICATION Spec
 CONSTANTS
   Sess <- S2
   Menu <- MenuQ
+  MixMenu <- MixQ
   Creates <- CreatesQ
   Fees <- F12
   Pre <- PreA
@@ -9,5 +10,5 @@ CONSTANTS
   MaxLen = 4
 VIEW View
 INVARIANTS TypeOK WithinLimit UsedCovers
-PROPERTIES DeadAuthorizesNothing RejectIsFree StepWithinBudget Independent
+PROPERTIES DeadAuthorizesNothing RejectIsFree StepWithinBudget Independent RestrictionsEverywhere
 ACTION_CONSTRAINT EmitEdge
